@@ -18,7 +18,7 @@ obtained from measured objects (`series * wiggle`, rows reassigned in place) is 
 Part `reject` applies one defect to a valid input and requires every metric to raise.
 """
 import math
-from datetime import datetime, timedelta
+from datetime import datetime, timedelta, timezone
 from fractions import Fraction
 
 import numpy as np
@@ -48,7 +48,11 @@ RULE = ("definitions/scale/reject: Hypothesis draws n in 2..400 observations; in
         "benchmark moves outside the strategy's stretch replaced / multiplied by a different growth. derived: same inputs (4 of 7 intraday), one operation in {obj*c, obj.mul(c), obj/c, "
         "obj*series of factors 0.8..1.2, copy + 1-4 rows reassigned, same object with 1-4 rows reassigned in place, "
         "obj.iloc[a:b]} applied after the original was measured, optionally followed by a benchmark = measured series "
-        "* wiggle, a benchmark edited in place, a risk-free = measured risk-free * wiggle. non-trivial = at least 3 daily levels and the returns of the first column are "
+        "* wiggle, a benchmark edited in place, a risk-free = measured risk-free * wiggle. Three cases in eight carry a timezone-aware index "
+        "(fixed offsets -5 h, +9 h, -11 h, same wall-clock times; calendar days are those of the index's own clock). calendars: strategy on 6-40 daily "
+        "dates with gaps 1-4, benchmark on its own calendar (0-3 of the strategy's dates dropped, 0-3 other dates inserted, mostly the same number of "
+        "observations); wherever both are observed on a date and on the same preceding date, excess_returns must equal r_strategy - r_benchmark of "
+        "those two dates (non-trivial = >= 2 such dates and calendars differ). non-trivial (other parts) = at least 3 daily levels and the returns of the first column are "
         "not all equal.")
 
 ASSUMPTIONS = [
@@ -308,6 +312,10 @@ def build(case):
     """-> times, frame (Series or DataFrame), list of per-column arrays, rf object/array, bm object/array."""
     times = build_times(case)
     idx = pd.DatetimeIndex(times)
+    if case.get("tz_hours") is not None:
+        # a timezone-aware index (fixed offset: no DST gaps) holding the same wall-clock times: calendar days, and hence
+        # every definition, are those of the index's own clock
+        idx = idx.tz_localize(timezone(timedelta(hours=case["tz_hours"])))
     arrays = [build_levels(c, case.get("int", False)) for c in case["cols"]]
     if case["frame"] == "series":
         frame = pd.Series(arrays[0], index=idx, name="x")
@@ -345,6 +353,11 @@ def tag_base(res, case, times, arrays):
         res.tag("intraday-collapsed")
     if times[-1].time() < times[0].time():
         res.tag("last-time-of-day-before-first")
+    if case.get("tz_hours") is not None:
+        res.tag("tz-aware-index")
+        off = timedelta(hours=case["tz_hours"])
+        if len(dates) < len(times) and any((t - off).date() != t.date() for t in times):
+            res.tag("tz-aware-intraday-local-date!=utc-date")
     n = len(times)
     res.tag("n:2" if n == 2 else "n:3-10" if n <= 10 else "n:11-60" if n <= 60 else "n:61-400")
     r = lv[1:] / lv[:-1] - 1.0
@@ -560,6 +573,11 @@ def check_track_record(res, times, levels, refs, risk_free=None, benchmark=None,
     `risk_free` / `benchmark` are attached the way TradingEnv.backtest attaches the user's series."""
     res.tag("track-record")
     track = TrackRecord()
+    # the record is stamped with the simulation's timezone-naive clock: the attached series are on the same clock
+    if getattr(getattr(risk_free, "index", None), "tz", None) is not None:
+        risk_free = risk_free.tz_localize(None)
+    if getattr(getattr(benchmark, "index", None), "tz", None) is not None:
+        benchmark = benchmark.tz_localize(None)
     if risk_free is not None:
         track.risk_free = risk_free
     elif len(times) % 2 == 0:
@@ -1107,6 +1125,7 @@ def base_cases(draw, tier="quick", need_rf=False, need_bm=False, allow_float_rf=
             bumps = draw(st.lists(st.integers(-200, 200), min_size=1, max_size=12))
             moves = [max(m + bumps[i % len(bumps)] / 1e6, 1e-3) for i, m in enumerate(cols[0]["moves"])]
         case["bm"] = {"form": bm_form, "mode": mode, "first": draw(st.sampled_from([1.0, 50.0])), "moves": moves}
+    case["tz_hours"] = draw(st.sampled_from([None] * 5 + [-5, 9, -11]))
     case["q"] = draw(st.one_of(st.none(), st.none(),
                                st.sampled_from([0.05, 0.02, 0.5, 0.25, 0.125, 0.0625, 0.03125, 0.75]),
                                st.sampled_from([0.5, 0.25, 0.125]),
@@ -1205,7 +1224,85 @@ def probe_tracking_error_two_levels():
 
 FINDING_PROBES = {"D11": probe_tracking_error_two_levels}
 
+# =========================================================================================== PART calendars
+# A benchmark observed on its own calendar (some of the strategy's dates missing, some extra ones). Whatever a
+# library does on dates the two series do not share, one entry is unambiguous: when both series have an observation
+# on date d AND on the same preceding date, the excess return on d is r_strategy(d) - r_benchmark(d).
+
+@st.composite
+def calendar_cases(draw, tier="quick"):
+    n = draw(st.integers(6, 40))
+    gaps = draw(st.lists(st.sampled_from([1, 1, 2, 3, 4]), min_size=n - 1, max_size=n - 1))
+    days = [0]
+    for g in gaps:
+        days.append(days[-1] + g)
+    drop = sorted(set(draw(st.lists(st.integers(0, n - 1), min_size=0, max_size=3))))
+    free = [d for d in range(days[-1]) if d not in days]
+    k_ins = draw(st.sampled_from([len(drop), len(drop), len(drop), 0, 1, 2]))      # mostly: same number of observations
+    ins = sorted(set(draw(st.lists(st.sampled_from(free), min_size=min(k_ins, len(free)), max_size=min(k_ins, len(free)))))) if free and k_ins else []
+    bm_days = sorted((set(days) - {days[i] for i in drop}) | set(ins))
+    if len(bm_days) < 3:
+        bm_days = list(days)
+    ncols = draw(st.sampled_from([0, 0, 1, 2]))
+    cols = [{"first": draw(st.sampled_from([1.0, 100.0, 37.5])), "moves": draw(move_lists("bounded", n - 1))} for _ in range(max(1, ncols))]
+    bm = {"first": draw(st.sampled_from([1.0, 50.0])), "moves": draw(move_lists("bounded", len(bm_days) - 1))}
+    return {"start": [draw(st.integers(1995, 2030)), draw(st.integers(1, 12)), draw(st.integers(1, 28))], "days": days, "bm_days": bm_days,
+            "frame": "series" if ncols == 0 else "df", "cols": cols, "bm": bm, "bm_form": draw(st.sampled_from(["series", "df1"]))}
+
+
+def run_calendars(case):
+    res = Result()
+    t0 = datetime(*case["start"])
+    times = [t0 + timedelta(days=d) for d in case["days"]]
+    btimes = [t0 + timedelta(days=d) for d in case["bm_days"]]
+    arrays = [build_levels(c) for c in case["cols"]]
+    barr = build_levels(case["bm"])
+    idx = pd.DatetimeIndex(times)
+    frame = pd.Series(arrays[0], index=idx, name="x") if case["frame"] == "series" else pd.DataFrame({COLS[j]: a for j, a in enumerate(arrays)}, index=idx)
+    bm_obj = pd.Series(barr, index=pd.DatetimeIndex(btimes), name="BM")
+    if case["bm_form"] == "df1":
+        bm_obj = bm_obj.to_frame()
+    got = frame.excess_returns(bm_obj)
+    try:
+        cols, labels = columns_of(got, frame)
+    except _Shape as exc:
+        res.fail("excess_returns(benchmark on its own calendar) returned an object of unexpected shape (%s)" % exc)
+        return res
+    labels = [x.date() if hasattr(x, "date") else x for x in labels]
+    bpos = {d: i for i, d in enumerate(case["bm_days"])}
+    checked = shifted = 0
+    for i in range(1, len(times)):
+        d, dprev = case["days"][i], case["days"][i - 1]
+        j = bpos.get(d)
+        if j is None or j == 0 or case["bm_days"][j - 1] != dprev:
+            continue
+        if j != i:
+            shifted += 1
+        day = times[i].date()
+        if day not in labels:
+            res.fail("excess_returns has no entry for %s although strategy and benchmark are both observed on it and on the preceding date" % day)
+            return res
+        row = labels.index(day)
+        for cj, a in enumerate(arrays):
+            want = (a[i] / a[i - 1] - 1.0) - (barr[j] / barr[j - 1] - 1.0)
+            if not same(cols[cj][row], want, 1e-12, 1e-13):
+                res.fail("excess return of column %d on %s is %r; strategy %r -> %r and benchmark %r -> %r over the same two dates give %r" % (
+                    cj, day, float(cols[cj][row]), a[i - 1], a[i], barr[j - 1], barr[j], want))
+                return res
+        checked += 1
+    res.nontrivial = checked >= 2 and case["bm_days"] != case["days"]
+    res.tag("frame:" + case["frame"], "bm:" + case["bm_form"])
+    if case["bm_days"] != case["days"]:
+        res.tag("benchmark-on-its-own-calendar")
+        if len(case["bm_days"]) == len(case["days"]):
+            res.tag("own-calendar-with-the-same-number-of-observations")
+    if shifted:
+        res.tag("common-dates-at-different-row-positions")
+    return res
+
+
 PARTS = [
+    Part("calendars", strategy=lambda tier: calendar_cases(tier), run=run_calendars, quick=400, thorough=10000),
     Part("definitions", strategy=lambda tier: definition_cases(tier), run=run_definitions, quick=1200, thorough=30000),
     Part("scale", strategy=lambda tier: scale_cases(tier), run=run_scale, quick=600, thorough=16000),
     Part("window", strategy=lambda tier: window_cases(tier), run=run_window, quick=300, thorough=8000),
